@@ -130,6 +130,19 @@ class ContainerMethod:
         self.base, self.name = base, name
 
 
+class BuiltinRef:
+    """A builtin function used as a value (`check = issubclass if ... else isinstance`); calling it goes through the hook under its own name."""
+
+    def __init__(self, name):
+        self.name = name
+
+    def __repr__(self):
+        return "<builtin %s>" % self.name
+
+
+BUILTIN_FUNC_VALUES = {"isinstance", "issubclass", "callable", "len", "hasattr", "getattr", "repr", "str"}
+
+
 class PyFunc:
     """A library function modelled by a Python function of the check (held in a variable by the code)."""
 
@@ -190,7 +203,7 @@ class Outcome:
 
 
 ORDER_PRESERVING = {"_to_datetime"}
-BUILTIN_TYPE_NAMES = {"int", "float", "complex", "str", "bytes", "tuple", "list", "dict", "set", "frozenset", "bool", "object"}
+BUILTIN_TYPE_NAMES = {"int", "float", "complex", "str", "bytes", "tuple", "list", "dict", "set", "frozenset", "bool", "object", "type"}
 OPAQUE_PREDICATES = {"isinstance", "issubclass", "_is_number", "hasattr"}
 
 
@@ -655,6 +668,8 @@ class Interp:
                 return self.globals[e.id]
             if e.id in BUILTIN_TYPE_NAMES:
                 return "<type %s>" % e.id
+            if e.id in BUILTIN_FUNC_VALUES and not getattr(self, "_in_call_func", False):
+                return BuiltinRef(e.id)
             if self.resolve_module_constants and f is not None and e.id not in self._resolving:
                 # a module-level constant (`NAME = <expression>` assigned exactly once at top level)
                 defs = [st for st in f.module.tree.body if isinstance(st, ast.Assign) and len(st.targets) == 1
@@ -972,6 +987,9 @@ class Interp:
                 return self.call_container_method(bound, args, kwargs)
             if isinstance(bound, PyFunc):
                 return bound.fn(*args, **kwargs)
+            if isinstance(bound, BuiltinRef):
+                r = self.call_hook(bound.name, args, kwargs) if self.call_hook is not None else NotImplemented
+                return TOP if r is NotImplemented else r
             if isinstance(bound, BoundMethod):
                 return self.invoke(bound.func, args, kwargs, bound.obj)
             if n in ("any", "all") and args and isinstance(args[0], (list, tuple)):
